@@ -350,7 +350,7 @@ def s6(ctx, rep):
         raise AnchorError("remove_events: predicate does not compare an element attribute with trial_id")
     common.keepfilter_polarity(ctx, rep, "S6", r, [cond], elem, "trial_id", "SimulatorState.remove_events", comp[0])
     # result is stored back
-    ok = any(isinstance(s, ast.Assign) and s.value is comp[0] and U(s.targets[0]) == "self.event_heap" for s in r.node.body)
+    ok = any(isinstance(s, ast.Assign) and s.value is comp[0] and U(s.targets[0]) == "self.event_heap" for s in walk_shallow(r.node))
     rep.put(ok, "S6", "agreement", "SimulatorState.remove_events: filtered heap stored back", r, comp[0], "")
 
 
